@@ -356,6 +356,29 @@ def masks(c):
 FNS['masks'] = masks
 
 
+def pow2attn(c):
+  """one (batch, head) slice with logits that are integer multiples of ln 2: q = ln 2 * sqrt(d) * integers, integer keys and values,
+  bias = ln 2 * integers; the raw weights and outputs go to the model (Model/Attn.v)"""
+  qi, ki, vi = np.array(c['q'], dtype=np.float64), np.array(c['k'], dtype=np.float64), np.array(c['v'], dtype=np.float64)
+  D = qi.shape[1]
+  q = (np.log(2.0) * np.sqrt(D) * qi)[:, None, :]
+  k, v = ki[:, None, :], vi[:, None, :]
+  bias = None if c['bias'] is None else (np.log(2.0) * np.array(c['bias'], dtype=np.float64))[None]
+  mask = None if c['mask'] is None else np.array(c['mask'], dtype=bool)[None]
+  jb = None if bias is None else jnp.asarray(bias)
+  jm = None if mask is None else jnp.asarray(mask)
+  out = {}
+  from flax.nnx.nn.attention import dot_product_attention_weights as nnx_weights, dot_product_attention as nnx_attention
+  for api, wf, af in (('linen', nn.dot_product_attention_weights, nn.dot_product_attention), ('nnx', nnx_weights, nnx_attention)):
+    w = np.asarray(wf(jnp.asarray(q), jnp.asarray(k), jb, jm, dtype=jnp.float64))[0]
+    o = np.asarray(af(jnp.asarray(q), jnp.asarray(k), jnp.asarray(v), jb, jm, dtype=jnp.float64))[:, 0, :]
+    out[api] = {'w': w.tolist(), 'o': o.tolist()}
+  return out
+
+
+FNS['pow2attn'] = pow2attn
+
+
 def main(payload):
   res = []
   for c in payload['cases']:
